@@ -342,19 +342,87 @@ def run_jwt_at(ctx):
         time.time = real_time
 
 
+def run_sqla(ctx):
+    """The validator most applications use: sqla_oauth2.create_bearer_token_validator over token rows (the repository's
+    token mixin, in-memory SQLite).  What is presented is looked up as an ACCESS token only: the refresh string of the
+    same row, the row's other columns and near-misses of the access string are unknown tokens."""
+    import time as _time
+    from sqlalchemy import Column, Integer, String, create_engine
+    from sqlalchemy.orm import declarative_base, sessionmaker
+    from authlib.integrations.sqla_oauth2 import OAuth2TokenMixin, create_bearer_token_validator
+    m = ctx.model
+    Base = declarative_base()
+
+    class Token(Base, OAuth2TokenMixin):
+        __tablename__ = "token"
+        id = Column(Integer, primary_key=True)
+        user_id = Column(String(40))
+
+    engine = create_engine("sqlite://")
+    Base.metadata.create_all(engine)
+    session = sessionmaker(bind=engine)()
+    now = int(_time.time())
+    rows = {"live": dict(issued_at=now, expires_in=3600), "expired": dict(issued_at=now - 7200, expires_in=3600),
+            "revoked": dict(issued_at=now, expires_in=3600, access_token_revoked_at=now - 1),
+            "refresh-revoked": dict(issued_at=now, expires_in=3600, refresh_token_revoked_at=now - 1),
+            "no-refresh": dict(issued_at=now, expires_in=3600)}
+    for name, kw in rows.items():
+        session.add(Token(client_id="c-" + name, user_id="u", token_type="bearer", access_token="at-" + name,
+                          refresh_token=None if name == "no-refresh" else "rt-" + name, scope="a b", **kw))
+    session.commit()
+    rp = ResourceProtector()
+    rp.register_token_validator(create_bearer_token_validator(session, Token)())
+    state_of = {"live": (False, False), "expired": (True, False), "revoked": (False, True),
+                "refresh-revoked": (False, True),    # the mixin's is_revoked: either mark retires the whole row
+                "no-refresh": (False, False)}
+    presented = [("at-" + n, n) for n in rows] + [("rt-" + n, None) for n in rows if n != "no-refresh"] + \
+                [("c-live", None), ("u", None), ("bearer", None), ("1", None), ("at-liv", None), ("at-livee", None), ("AT-LIVE", None),
+                 ("at-live ", None), ("rt-live at-live", None), ("None", None), ("", None), ("%", None), ("at-%", None), ("at_live", None)]
+    for string, row in presented:
+        for required in (None, "a", "a b", ["c", "a"], "c", ["a b c"]):
+            auth = "Bearer " + string
+            got = run_impl(rp, auth, required)
+            if got[0] == "serve":
+                got = ["serve", "tok" if got[1].access_token == string else "?"]
+            mstore = {} if row is None else {"tok": {"expired": state_of[row][0], "revoked": state_of[row][1], "scope": "a b"}}
+            # the model's store maps the presented string to a token; what is not an access string maps to nothing
+            mod = m.call("validate_request", {"types": ["bearer"], "store": mstore, "auth": "Bearer tok" if row is not None else auth,
+                                              "required": required})
+            case = {"sqla_validator": True, "presented": string, "row": row, "required": required}
+            ctx.case(case, ("sqla", string, json.dumps(required)), "sqla:" + got[0] + (":access" if row else ":other"))
+            if row is not None or _plain_token(string):
+                ctx.compare("validate_request", case, got, mod)
+            if got[0] == "escapes":
+                ctx.violation("C10:sqla:escapes:%s" % got[1], "resource protector raised an unhandled exception", case)
+            if got[0] == "serve" and not (row is not None and state_of[row] == (False, False) and contained("a b", required)):
+                ctx.violation("C10:sqla:served-without-right", "request served for something that is not a live access token "
+                              "with a sufficient scope (a refresh string, another column, an expired or revoked row)", case)
+            if row is not None and state_of[row] == (False, False) and contained("a b", required) and got[0] != "serve":
+                ctx.violation("C10:sqla:refused-with-right", "live access token with sufficient scope refused", case)
+    session.close()
+
+
+def _plain_token(s):
+    return bool(s) and s == s.strip() and " " not in s
+
+
 def run(ctx):
     ctx.rule = ("bearer: exhaustive product header shape (20) x token state (5) x token scope form (27) x required "
                 "specification (23) for serving headers with a live token (1/5 of it for the 4 non-primary serving "
-                "headers in the quick tier), 3 (scope, required) pairs elsewhere; Flask decorator on a seeded sample; "
+                "headers in the quick tier), 3 (scope, required) pairs elsewhere; the sqla_oauth2 validator over token rows "
+                "(access / refresh strings of live, expired, revoked rows, other columns, near-misses); Flask decorator on a seeded sample; "
                 "RFC 9068 tokens: seeded claim/header mutations x key (right, second, EC, wrong, unknown kid) x "
                 "malformed tokens x scope/groups/roles/entitlements requirements. distinct_nontrivial = distinct "
                 "(header, state, scope, required, outcome) tuples")
     run_bearer(ctx)
+    run_sqla(ctx)
     run_flask(ctx)
     run_jwt_at(ctx)
 
 
 def run_case(ctx, case):
+    if case.get("sqla_validator"):
+        return run_sqla(ctx)
     if case.get("jwt_at"):
         rp, keys = at_setup()
         real_time = time.time
